@@ -1969,6 +1969,26 @@ func (c *Cache) additionalAnswer(ctx context.Context, msg *dns.Msg) *dns.Msg {
 			middleware.MarkRequestLocalFailureResponse(ctx, out, err)
 			return out
 		}
+		if err == nil && respCname != nil && respCname.Rcode == dns.RcodeServerFailure {
+			// The alias target failed to resolve: its validation failed, or
+			// no authority gave a usable answer. The alias on its own under
+			// NOERROR would read as "the target holds no such data", which
+			// nothing established — fail the composed answer instead, with
+			// the target's reason and its request-local provenance.
+			do := false
+			if opt := msg.IsEdns0(); opt != nil {
+				do = opt.Do()
+			}
+			edeCode, edeText := uint16(dns.ExtendedErrorCodeOther), ""
+			if ede := dnsutil.GetEDE(respCname); ede != nil {
+				edeCode, edeText = ede.InfoCode, ede.ExtraText
+			}
+			out := dnsutil.SetRcodeWithEDE(msg, dns.RcodeServerFailure, do, edeCode, edeText)
+			if localErr := middleware.RequestLocalFailureForResponse(ctx, respCname); localErr != nil {
+				middleware.MarkRequestLocalFailureResponse(ctx, out, localErr)
+			}
+			return out
+		}
 		if err == nil && (len(respCname.Answer) > 0 || len(respCname.Ns) > 0) {
 			target, child = searchAdditionalAnswer(msg, respCname)
 			// The sub-query's records are now part of the outer answer, so
